@@ -39,7 +39,7 @@ CHECKS = {
             'All ~340 registered functions are called with regular, integer, boundary and hostile (NaN/Inf/huge) argument vectors in value, first- and second-derivative modes with random dig masks, each twice: no error must mean non-NaN value/partials that agree with numerical differentiation (with reproduction at a neighbouring point before a disagreement counts), errors must be explicit, calls deterministic (random-valued ones after reseeding), no sanitizer report.',
             'the stand-in funcadd.h fixes the arglist layout for both sides; second partials are indexed by rows as in test/gsl-test.cc; calls exceeding 8 s inside libgsl are counted as inconclusive, not judged; libgsl is uninstrumented', '2/C16'),
     'C13': ('exploration', 'measurement monitoring: the real PLApproximate<Con> output judged by dense sampling + extremum search against long-double libm; guarded hook reports dropped breakpoints',
-            'For all 17 function types, parameters, interval shapes, tolerances and integer/continuous arguments the routine the converter calls is executed and its point list measured: strict monotonicity of breakpoints, first/last breakpoint = reported domain, per-segment maximum error in the property\'s abs/rel metric, the periodic reduction at several period factors, exactness of the integer shortcut; hangs are caught by the watchdog.',
+            'For all 17 function types, parameters, interval shapes, tolerances and integer/continuous arguments the routine the converter calls is executed and its point list measured: strict monotonicity of breakpoints, first/last breakpoint = reported domain, per-segment maximum error in the property\'s abs/rel metric, the periodic reduction at several period factors, exactness of the integer shortcut; hangs are caught by the watchdog. A second stage runs \'y = f(x)\' through the real converter (mpmon driver, f not accepted, PL constraint accepted) and decides the delivered model with z3 at sampled arguments incl. period boundaries: some y exists and every admitted y is within the requested relative tolerance of f(x).',
             'long-double libm is the reference; sampling (49 points + golden section per segment) can miss narrow spikes; violations on segments spanning breakpoints dropped by the 1e-4 spacing rule are a listed known finding (attribution is exact through the MP_VERIF_HOOKS hook)', '2/C13'),
     'C11': ('exploration', 'generator-knows-the-answer monitoring of the real BasicSolver option parser, hostile strings in exact-size heap buffers under ASan',
             'Grammar-derived assignment sequences over int/double/string/flag/wildcard options, inline and out-of-line synonyms in random case, all separator forms, quoted strings and name=? queries are distributed over mp_options, <exe>_options, <solver>_options and argv; the final value of every option, the ParseOptions result and the error-handler calls must equal what the generator assigned in the documented source order; hostile strings must terminate with at most an option error.',
